@@ -182,7 +182,12 @@ def pearson(X, Y=None):
 
 def _check_array(arr, dtype=float, force_sparse=False):
     if force_sparse or issparse(arr):
-        return csr_matrix(arr, copy=False, dtype=dtype)
+        out = csr_matrix(arr, copy=False, dtype=dtype)
+        if issparse(arr) and not out.has_canonical_format:
+            # SciPy routines may canonicalise in place; never on buffers
+            # shared with the caller's matrix
+            out = out.copy()
+        return out
     else:
         return arr.astype(dtype, copy=False)
 
